@@ -88,9 +88,26 @@ fn gen_candidate(rng: &mut Rng, ring: &mut KeyRing, m: &GwModel, class: &str) ->
                 s.signers.push(MSigner { key: pk, weight: 1 });
                 s.signers.sort_by(|a, b| a.key.cmp(&b.key));
             }
+            while s.signers.len() < 3 && rng.chance(2, 3) {
+                let pk = ring.gen(rng);
+                s.signers.push(MSigner { key: pk, weight: 1 });
+                s.signers.sort_by(|a, b| a.key.cmp(&b.key));
+            }
             let n = s.signers.len();
-            // sum = u128::MAX + 1 exactly, or far beyond
-            if rng.chance(1, 2) {
+            // sum = u128::MAX + 1 exactly, far beyond, or wrapping at a signer in the middle so
+            // that the additions after the wrap are small again
+            if n >= 3 && rng.chance(1, 2) {
+                let p = 1 + rng.usize(n - 2); // the addition that wraps: 1 ..= n-2
+                for (i, x) in s.signers.iter_mut().enumerate() {
+                    x.weight = if i == 0 {
+                        u128::MAX - (p as u128 - 1)
+                    } else if i <= p {
+                        1
+                    } else {
+                        1 + rng.below(5) as u128
+                    };
+                }
+            } else if rng.chance(1, 2) {
                 for (i, x) in s.signers.iter_mut().enumerate() {
                     x.weight = if i == 0 { u128::MAX - (n as u128 - 2) } else { 1 };
                 }
@@ -515,5 +532,5 @@ pub fn run(ctx: &Ctx, rep: &mut Report) {
     req.push("construct-malformed-inside".into());
     req.push("construct-three".into());
     rep.notes.insert("required".into(), json!(req));
-    rep.notes.insert("rule".into(), json!("3 of 4 universes: gateway (delay 0, retention in {0,1,3}, 1-3 initial sets) and 28 rotation attempts, interleaved with ledger advancement of up to 1.3 M ledgers, = candidate class (12: fresh, total exactly u128::MAX, earlier set with other nonce, empty, adjacent equal keys, descending pair, zero weight, total overflowing u128, threshold 0 / total+1, earlier set verbatim, all-zero first key) x proof class (10: newest, a proof checked earlier through validate_proof while its set was the newest and used after it stopped being the newest, older retained with/without bypass, bypass without operator by the newest or an older retained set, unknown set, proof for another candidate, expired set with bypass, one signer short); after every attempt epoch(), signers_hash_by_epoch(0..=epoch+1) and epoch_by_signers_hash(every hash ever seen, including rejected candidates) are compared with the model. 1 of 4 universes: 6 constructor attempts through a factory (0/1/3 sets, duplicate or malformed member inside, same set with other nonce). distinct = (candidate class, proof class, expectation, outcome, epoch)"));
+    rep.notes.insert("rule".into(), json!("3 of 4 universes: gateway (delay 0, retention in {0,1,3}, 1-3 initial sets) and 28 rotation attempts, interleaved with ledger advancement of up to 1.3 M ledgers, = candidate class (12: fresh, total exactly u128::MAX, earlier set with other nonce, empty, adjacent equal keys, descending pair, zero weight, total overflowing u128 at the last, at every or at a middle signer, threshold 0 / total+1, earlier set verbatim, all-zero first key) x proof class (10: newest, a proof checked earlier through validate_proof while its set was the newest and used after it stopped being the newest, older retained with/without bypass, bypass without operator by the newest or an older retained set, unknown set, proof for another candidate, expired set with bypass, one signer short); after every attempt epoch(), signers_hash_by_epoch(0..=epoch+1) and epoch_by_signers_hash(every hash ever seen, including rejected candidates) are compared with the model. 1 of 4 universes: 6 constructor attempts through a factory (0/1/3 sets, duplicate or malformed member inside, same set with other nonce). distinct = (candidate class, proof class, expectation, outcome, epoch)"));
 }
